@@ -18,6 +18,8 @@ type State struct {
 	parents []*State
 	pconds  []*Term
 	next    *Term
+	paramMode bool
+	paramReads map[string]bool // shared by all clones of a parameter state
 }
 
 func NewState(label string) *State {
@@ -28,7 +30,7 @@ func NewState(label string) *State {
 }
 
 func (s *State) Clone() *State {
-	c := &State{comps: make(map[string]*Term, len(s.comps)), sorts: s.sorts, epoch: s.epoch, parents: s.parents, pconds: s.pconds, next: s.next}
+	c := &State{comps: make(map[string]*Term, len(s.comps)), sorts: s.sorts, epoch: s.epoch, parents: s.parents, pconds: s.pconds, next: s.next, paramMode: s.paramMode, paramReads: s.paramReads}
 	for k, v := range s.comps {
 		c.comps[k] = v
 	}
@@ -51,6 +53,13 @@ func (s *State) Get(name string, sort Sort) *Term {
 		t = s.parents[len(s.parents)-1].Get(name, sort)
 		for i := len(s.parents) - 2; i >= 0; i-- {
 			t = Ite(s.pconds[i], s.parents[i].Get(name, sort), t)
+		}
+	} else if s.paramMode {
+		// specification-function body: heap components are parameters of the definition
+		t = TS.intern(&Term{Name: smtName("hp$" + name), Sort: sort, flags: flagHasBound})
+		t.flags |= flagHasBound
+		if s.paramReads != nil {
+			s.paramReads[name] = true
 		}
 	} else {
 		t = Const(fmt.Sprintf("H%d$%s", s.epoch, name), sort)
